@@ -3,6 +3,10 @@
 import json, sys, os
 sys.path.insert(0, os.path.dirname(__file__))
 from manifest_src import CHECKS, NOT_YET
+import glob
+for f in sorted(glob.glob('/verif/manifest_parts/*.json')):
+    d = json.load(open(f))
+    CHECKS[d['property_id']] = d
 props = [json.loads(l)['id'] for l in open('/verif/properties.jsonl')]
 checks = []
 for pid in props:
@@ -15,7 +19,7 @@ for pid in props:
                        'engine': 'tlc+conformance',
                        'level_claimed': {'category': c.get('category', 'model_checking'), 'text': c['text'], 'design_ref': c['design_ref']},
                        'level_note': c['note'], 'technique': c['technique']})
-na = [{'property_id': p, 'reason': NOT_YET.get(p, 'check not built yet in this round; see DESIGN.md section 5 for the plan')} for p in props if p not in CHECKS]
+na = [{'property_id': p, 'reason': NOT_YET.get(p, 'no check registered yet: the specification and harness for this property are still being built (plan: DESIGN.md section 5)')} for p in props if p not in CHECKS]
 m = {'version': 1, 'setup_cmd': './setup.sh',
      'hooks': {'guard': 'PYYAML_VERIF', 'enable': 'no hooks are needed: every pipeline stage is driven through its mixin interface from outside the repository (DESIGN.md section 1)',
                'baseline_off_cmd': 'cd /repo && /venv/bin/python -m pytest -ra -q -p no:cacheprovider --timeout=900 --continue-on-collection-errors',
